@@ -641,6 +641,33 @@ func suiteCodec(args []string) {
 			rep.Distribution["enc-shape:"+strings.SplitN(obs, " ", 2)[0]]++
 		}()
 	}
+	// group 2b: Decode targets that are not pointers to KMIP structures (C13): impl-only oracle
+	{
+		var i int
+		var pp *kmip.Request
+		var s string
+		var m map[string]int
+		targets := map[string]interface{}{"nil": nil, "&int": &i, "&ptr": &pp, "struct-by-value": kmip.Request{}, "nil-ptr": (*kmip.Request)(nil),
+			"&string": &s, "&map": &m, "int": 5, "&BadTag": &BadTag{}, "&BadType": &BadType{}, "func": func() {}, "&time": new(time.Time)}
+		var names []string
+		for k := range targets {
+			names = append(names, k)
+		}
+		sort.Strings(names)
+		for _, k := range names {
+			for _, data := range [][]byte{nil, {0x42, 0, 0x78, 1, 0, 0, 0, 0}, randomBytes(r)} {
+				func() {
+					defer func() {
+						if p := recover(); p != nil {
+							viol("target-panic", map[string]interface{}{"target": k, "bytes": hexBytes(data), "panic": firstLine(fmt.Sprint(p))})
+						}
+					}()
+					err := kmip.NewDecoder(bytes.NewReader(data)).Decode(targets[k])
+					rep.Distribution[fmt.Sprintf("dec-target:%s:%v", k, err == nil)]++
+				}()
+			}
+		}
+	}
 	// group 3: decode of valid encodings, mutations and random bytes
 	for i, m := range validMsgs {
 		tn := m[0]
